@@ -1,6 +1,7 @@
 import YardlModel.WireJson
 import YardlModel.Streams
 import YardlModel.Batch
+import YardlModel.Expr
 
 /-! Line-protocol driver for the wire engine: one JSON request per line on stdin, one JSON
     reply per line on stdout. -/
@@ -121,6 +122,26 @@ partial def modelBatches (s : BS) (cap : Nat) (acc : List Nat) : List Nat :=
   let acc' := if vs.isEmpty then acc else vs.length :: acc
   if s'.cbr = 0 then acc'.reverse else modelBatches s' cap acc'
 
+def binOpOfString : String → Except String BinOp
+  | "add" => pure .add | "sub" => pure .sub | "mul" => pure .mul | "div" => pure .div | "pow" => pure .pow
+  | s => throw s!"bad op {s}"
+
+/-- Expr JSON: ["lit",n] | ["var",i] | ["neg",e] | ["bin",op,l,r] -/
+partial def exprOfJson (j : Json) : Except String Expr := do
+  let a ← j.getArr?
+  let tag ← (a[0]?.getD Json.null).getStr?
+  let arg (i : Nat) : Json := a[i]?.getD Json.null
+  match tag with
+  | "lit" => pure (.lit (← (arg 1).getInt?))
+  | "var" => pure (.var (← jNat (arg 1)))
+  | "neg" => pure (.neg (← exprOfJson (arg 1)))
+  | "bin" => pure (.bin (← binOpOfString (← (arg 1).getStr?)) (← exprOfJson (arg 2)) (← exprOfJson (arg 3)))
+  | _ => throw s!"bad expr tag {tag}"
+
+def targetOfString : String → Except String Target
+  | "cpp" => pure .cpp | "python" => pure .python | "matlab" => pure .matlab
+  | s => throw s!"bad target {s}"
+
 def handle (j : Json) : Except String Json := do
   let op ← (← j.getObjVal? "op").getStr?
   match op with
@@ -185,6 +206,18 @@ def handle (j : Json) : Except String Json := do
     let n := part.foldl (· + ·) 0
     let items := (List.range n).map fun (i : Nat) => Val.int (Int.ofNat i)
     pure (Json.mkObj [("batches", Json.arr ((modelBatches (BS.init part items) cap []).map jn).toArray)])
+  | "eval" =>
+    let e ← exprOfJson (← j.getObjVal? "expr")
+    let env ← (← j.getObjVal? "env").getArr?
+    let env ← env.toList.mapM (·.getInt?)
+    match e.eval (fun i => env.getD i 0) with
+    | none => pure (Json.mkObj [("undefined", Json.bool true)])
+    | some v => pure (Json.mkObj [("value", ji v)])
+  | "paren" =>
+    let tgt ← targetOfString (← (← j.getObjVal? "target").getStr?)
+    let op ← binOpOfString (← (← j.getObjVal? "op").getStr?)
+    let child ← binOpOfString (← (← j.getObjVal? "child").getStr?)
+    pure (Json.mkObj [("left", Json.bool (emitParenLeft tgt op child)), ("right", Json.bool (emitParenRight tgt op child))])
   | "cos" =>
     let lang ← (← j.getObjVal? "lang").getStr?
     let cap ← jNat (← j.getObjVal? "cap")
